@@ -152,18 +152,9 @@ fn enc_float(f: f64, out: &mut Vec<u8>) {
         write_half(h, out);
         return;
     }
-    if f.fract() == 0.0 {
-        // i128 range: approximately ±1.7e38; f64 can represent up to ±1.8e308
-        // Check range before casting to avoid overflow/UB
-        const I128_MAX_F: f64 = i128::MAX as f64;
-        const I128_MIN_F: f64 = i128::MIN as f64;
-        if (I128_MIN_F..=I128_MAX_F).contains(&f) {
-            let i = f as i128;
-            if i as f64 == f {
-                enc_int(i, out);
-                return;
-            }
-        }
+    if is_exact_int(f) {
+        enc_int(f as i128, out);
+        return;
     }
     let h = f16::from_f64(f);
     if h.to_f64() == f {
@@ -406,15 +397,20 @@ fn dec_value(bytes: &[u8], idx: &mut usize) -> Result<Value> {
     }
 }
 
+/// True when `f` is integral **and** the integer has a CBOR encoding this
+/// codec can decode again (`i64::MIN ..= u64::MAX`). Integral floats outside
+/// that range stay floats on both sides, so `write_major`'s `as u64` can never
+/// truncate and the decoder never demands an integer form that does not exist.
 fn is_exact_int(f: f64) -> bool {
+    const MIN_INT_F: f64 = i64::MIN as f64; // -2^63, exact
+    const END_INT_F: f64 = 18_446_744_073_709_551_616.0; // 2^64, exclusive
     if f.is_infinite() || f.is_nan() {
         return false;
     }
     if f.fract() != 0.0 {
         return false;
     }
-    let i = f as i128;
-    i as f64 == f
+    (MIN_INT_F..END_INT_F).contains(&f)
 }
 
 fn can_fit_f16(f: f64) -> bool {
